@@ -373,6 +373,20 @@ pub struct GroupConfig {
     pub paths: Vec<Path>,
 }
 
+/// Returns the path of a scanned root in the form in which the paths of the files are reported:
+/// with `.`, `..`, redundant separators and symbolic links to directories resolved.
+pub fn canonical_root(p: &Path) -> Path {
+    if p.to_path_buf().is_file() {
+        // same as the directory walk: don't resolve a symbolic link to a file
+        match (p.parent(), p.file_name()) {
+            (Some(parent), Some(name)) => Arc::new(parent.canonicalize()).join(Path::from(name)),
+            _ => p.canonicalize(),
+        }
+    } else {
+        p.canonicalize()
+    }
+}
+
 impl GroupConfig {
     fn validate(&self) -> Result<(), String> {
         if self.isolate && self.paths.len() <= self.rf_over() {
@@ -508,21 +522,7 @@ impl GroupConfig {
     /// Only such paths can be compared with the reported paths,
     /// e.g. to check if a file is located under one of the input paths.
     pub fn root_paths(&self) -> Vec<Path> {
-        self.input_paths()
-            .map(|p| {
-                if p.to_path_buf().is_file() {
-                    // same as the directory walk: don't resolve a symbolic link to a file
-                    match (p.parent(), p.file_name()) {
-                        (Some(parent), Some(name)) => {
-                            Arc::new(parent.canonicalize()).join(Path::from(name))
-                        }
-                        _ => p.canonicalize(),
-                    }
-                } else {
-                    p.canonicalize()
-                }
-            })
-            .collect()
+        self.input_paths().map(|p| canonical_root(&p)).collect()
     }
 
     /// Returns an iterator over the absolute input paths.
